@@ -203,6 +203,18 @@ func TestVerifRaftx(t *testing.T) {
 		part = run.Part
 	}
 	cfgs := configsFor(part, run.Thorough())
+	// the monitors that may raise an alarm in this check: its own property's and
+	// those of the properties its statement includes (C07 includes C02 and C03)
+	monitorTags = map[string]map[string]bool{
+		"c02": {"C02": true}, "c03": {"C03": true}, "c06": {"C06": true}, "c07": {"C07": true, "C02": true, "C03": true},
+		"c17": {"C17": true}, "c18": {"C18": true},
+	}[part]
+	defer func() {
+		suppressedMonitors.Range(func(k, v interface{}) bool {
+			res.Extra["monitor_failures_of_other_properties:"+k.(string)] = atomic.LoadInt64(v.(*int64))
+			return true
+		})
+	}()
 	res.Rule = "explicit-state BFS with dedup over a cluster of real raft.Peer+LogReader+rsm.StateMachine replicas; events = message deliveries (any order, loss by non-delivery, budgeted duplication), abstract timeouts, proposals, reads, config changes, apply lag, snapshots+compaction, crash/restart (also mid-cycle); evaluation = one transition executed with all invariants checked; distinct_nontrivial = distinct canonical cluster states"
 	res.Assumptions = []string{
 		"time is abstracted to {fresh, expired} tick counters (sound for safety: over-approximates timings)",
